@@ -154,6 +154,7 @@ def scen_networkx(cfg):
 
     def scenario(V):
         from rex import utils
+        from vlib.pysym import sym_int
 
         la, lb, le = cfg["lens"]
         g = mk_graph(V, "nx", (la, lb), le)
@@ -198,11 +199,23 @@ def scen_networkx(cfg):
             if bool(so != -1) and bool(si != -1):
                 from vlib.pysym import sym_int
                 want.add((f"a_{sym_int(so) if V.symbolic else int(so)}", f"b_{sym_int(si) if V.symbolic else int(si)}"))
+        # every message edge carries the receive time of (one of) the graph entries it stands for -- also when -1 entries precede valid ones
+        attr_ok = []
+        for (u, v) in sorted(want):
+            if u[0] == v[0]:
+                continue  # stateful edge
+            if not G.has_edge(u, v):
+                continue  # reported by the edge-set clause
+            cands = [k for k in range(le) if bool(e.seq_out[k] != -1) and bool(e.seq_in[k] != -1) and f"a_{sym_int(e.seq_out[k]) if V.symbolic else int(e.seq_out[k])}" == u
+                     and f"b_{sym_int(e.seq_in[k]) if V.symbolic else int(e.seq_in[k])}" == v]
+            got_t = G.edges[u, v].get("ts_recv")
+            attr_ok.append(z3.Or(*[_eqcell(V, got_t, e.ts_recv[k]) for k in cands]) if (got_t is not None and cands) else z3.BoolVal(False))
         got = set(G.edges)
         n_exist = sum(1 for n, ln in (("a", la), ("b", lb)) for i in range(ln) if bool(g.vertices[n].seq[i] != -1))
         res = {
             "a vertex exists iff its seq != -1 and carries that row's times": _conj(V, ok),
             "edges are exactly the stateful edges between consecutive existing vertices plus the messages whose both ends are valid": got == want,
+            "a message edge carries the receive time of the graph entry it stands for (unaffected by -1 entries before it)": _conj(V, attr_ok) if attr_ok else True,
             "no vertex or edge is created for padded (-1) entries": n_vertices == n_exist and all(not str(nm).endswith("_-1") for nm in G.nodes),
         }
         return res
